@@ -600,6 +600,28 @@ def apply_contracts(text, fspec, log, relpath, unwind=None):
                         fedits.append((ln[1], 0, '\n' + mark_text(pairs)))
                     else:
                         fedits.append((ln[0], 0, mark_text(pairs) + '\n'))
+                if spec.closures:
+                    cl = [m for m in re.finditer(r'\|\s*(\w+)\s*\|', msk[f.body_open:f.body_close]) if not msk[f.body_open + m.start() - 1:f.body_open + m.start()] == '|']
+                    for k, pairs in spec.closures.items():
+                        if k > len(cl):
+                            raise ExtractError('closure %d not found in %s' % (k, f.key))
+                        cm = cl[k - 1]
+                        cs = f.body_open + cm.start()
+                        ce = f.body_open + cm.end()
+                        # extent of the closure body: `unsafe { .. }` or `{ .. }`
+                        j = ce
+                        while msk[j].isspace():
+                            j += 1
+                        bm = re.match(r'(unsafe\s*)?\{', msk[j:])
+                        if not bm:
+                            raise ExtractError('closure %d of %s: body is not a block' % (k, f.key))
+                        bopen = j + bm.end() - 1
+                        bclose = rs.match_close(msk, bopen)
+                        params = pairs[0][0].strip()
+                        rest = mark_text(pairs[1:])
+                        fedits.append((cs, ce - cs, '|%s| %s\n{ ' % (params, rest)))
+                        fedits.append((bclose + 1, 0, ' }'))
+                        log.rule('R-contract', '%s: closure %d annotated' % (f.key, k))
                 for (var, ty) in spec.lettypes:
                     lm = re.search(r'\blet\s+(?:mut\s+)?%s\s*(?==[^=])' % re.escape(var), msk[f.body_open:f.body_close])
                     if not lm:
